@@ -4,7 +4,7 @@
 (* partitions (C06), each printed as one CLI line for the harness to materialise.          *)
 EXTENDS Cli, Report, TLC, Json
 
-ReportFaults == {"none", "missing_input", "bad_fx_folder", "parse_error", "uncovered_sale", "missing_exemption", "missing_rate", "bad_year", "unwritable_output"}
+ReportFaults == {"none", "missing_input", "bad_fx_folder", "parse_error", "uncovered_sale", "missing_exemption", "missing_rate", "unlisted_currency", "bad_year", "unwritable_output"}
 Scenarios ==
   {[cmd |-> "report", format |-> f, output |-> o, fault |-> x, target |-> t] :
       f \in {"plain", "json"}, o \in {"stdout", "file"}, x \in ReportFaults, t \in {"absent", "old"}}
